@@ -93,6 +93,9 @@ func simInputDevice(d *model.Desc, idx int) (input.Device, []input.Handler) {
 				}
 				ev := fmt.Sprintf("event%d", idx*8+hi)
 				for _, a := range sa.Axes {
+					if a.NoInfo {
+						continue // the zero value is what the device then reads
+					}
 					dev.AbsInfos[ev][evdev.EvCode(a.Code)] = evdev.AbsInfo{Minimum: a.Min, Maximum: a.Max}
 				}
 			}
